@@ -117,8 +117,11 @@ theorem C07_log_on_grid (d : Data) (song : Song) (tags : Vgm.Tags) (ops : List V
         rfl
       · rw [ho0] at hx
         unfold playSong at hx
-        simp only [List.mem_append, List.mem_cons, List.mem_map, List.not_mem_nil, or_false] at hx
-        rcases hx with (rfl | rfl) | ⟨w, _, rfl⟩ <;> rfl
+        simp only [List.mem_append, List.mem_cons, List.mem_flatMap, List.not_mem_nil, or_false] at hx
+        rcases hx with (rfl | rfl) | ⟨w, _, hw⟩
+        · rfl
+        · rfl
+        · exact toOps_noDelay w x hw
     have hnd := stamps_noDelay 0 (ctorPokes ++ o0) hpre
     have hloop : ∀ p ∈ stamps 0 o1, isWrite p.2 = true → p.1 % 735 = 0 := by
       have hc0 : ClockInv (0, s0.seqCounter, s0.pcmCounter) := by
